@@ -79,6 +79,24 @@ func (w *world) cfgLine() {
 		qci = append(qci, []int{q["qci"], q["cbs"], q["pbs"], q["ebs"], q["burst_duration_ms"]})
 	}
 	ev["qci"] = qci
+	if o.P4 {
+		acc := o.P4Access
+		if acc == "" {
+			acc = "198.18.0.1/32"
+		}
+		ip, n, _ := net.ParseCIDR(acc)
+		ones, _ := n.Mask.Size()
+		ev["access"] = sysh.U32(ip)
+		_, pn, _ := net.ParseCIDR(o.Pool)
+		pones, _ := pn.Mask.Size()
+		tcs := [][]int{}
+		for k, v := range o.P4QfiTC {
+			var q int
+			fmt.Sscanf(k, "%d", &q)
+			tcs = append(tcs, []int{q, v})
+		}
+		ev["p4"] = map[string]interface{}{"accessLen": ones, "uePool": []uint32{sysh.U32(pn.IP), uint32(pones)}, "slice": o.P4Slice, "defaultTC": o.P4DefaultTC, "qfiTC": tcs, "clear": o.P4Clear}
+	}
 	w.emit("cfg", false, ev)
 }
 
@@ -93,7 +111,11 @@ func (w *world) start() bool {
 		p.Close()
 	}
 	w.peers, w.nodes, w.sessions = nil, nil, nil
-	w.emit("start", true, map[string]interface{}{"k": "start", "obs": map[string]interface{}{"tables": w.s.Bess.Snapshot()}})
+	obs := map[string]interface{}{"tables": w.s.Bess.Snapshot()}
+	if w.s.P4 != nil {
+		obs["p4"] = w.s.P4Observe()
+	}
+	w.emit("start", true, map[string]interface{}{"k": "start", "obs": obs})
 	return true
 }
 
@@ -123,6 +145,9 @@ func (w *world) observe(replies [][]byte, barrier bool, seq uint32, markers bool
 		}
 	}
 	o.Tables = w.s.Bess.Snapshot()
+	if w.s.P4 != nil && o.Alive {
+		o.P4 = w.s.P4Observe()
+	}
 	return o
 }
 
